@@ -392,7 +392,7 @@ def _oracle_stat(case):
 # ------------------------------------------------------------------------------------------------------------
 def run(ctx):
     rng = ctx.rng
-    cases = [gen_case(rng, ctx.quick) for _ in range(ctx.n(10, 120))]
+    cases = [gen_case(rng, ctx.quick) for _ in range(ctx.n(6, 50))]
     for impl in ("jax", "cl"):
         for pe in ("a", "none"):
             c = gen_case(rng, ctx.quick, impl=impl)
@@ -438,7 +438,7 @@ def run(ctx):
         for impl in ("jax", "cl"):
             for _ in range(3):
                 base = gen_case(rng, True, impl=impl)
-                sc = dict(sub="stat", base=base, K=20000 if impl == "jax" else 4000, key=rng.randint(0, 2 ** 31 - 1))
+                sc = dict(sub="stat", base=base, K=8000 if impl == "jax" else 3000, key=rng.randint(0, 2 ** 31 - 1))
                 ctx.case(sc, True)
                 ctx.stat(f"stat:{impl}")
                 res = _oracle_stat(sc)
